@@ -201,7 +201,7 @@ def run_harnesses(res, cfg, sc, tier):
         elif t in ("changed", "thorough", "fallback"):
             res.trusted.append("not re-run in the quick tier (text of the covered function(s) unchanged since the committed baseline): Kani harness %s - %s" % (h["name"], h.get("contract", "")))
     if not want:
-        return
+        return False
     ov = overlay(sc)
     res.log["kani_overlay"] = ov
     # group by stubbing flag; heavy harnesses run alone in parallel groups via -j
@@ -243,7 +243,7 @@ def run_harnesses(res, cfg, sc, tier):
             o["verifier_output"] = r["text"]
             vals = playback(sc, fq_name(h), bool(h.get("stubbing")), cwd=(os.path.join(sc.dir, "ext") if h.get("crate") == "ext" else None),
                             tdir=("target-kani-ext" if h.get("crate") == "ext" else "target-kani"), has_cex=bool(h.get("cex")))
-            rp = {"harness": h["name"], "concrete_values": vals, "found_input": False}
+            rp = {"harness": h["name"], "test": h.get("replay_test"), "concrete_values": vals, "found_input": False}
             if vals is not None:
                 flat = [b for v in vals for b in v]
                 rp["input_hex"] = "".join("%02x" % b for b in flat)
@@ -264,6 +264,51 @@ def run_harnesses(res, cfg, sc, tier):
             res.trusted += h["assumes"]
     res.functions.setdefault("kani", [])
     res.functions["kani"] += sorted(set(h.get("function", "") for h in want))
+    return True
+
+
+def run_searches(res, cfg, sc, tier, overlay_done):
+    """Bounded native searches (labelled bounded, never counted as proved) for functions outside both verifiers' reach."""
+    path = os.path.join(KDIR, "searches.json")
+    if not os.path.exists(path):
+        return
+    demoted = set(d["fn"] for d in getattr(res, "demoted", []))
+    changed = getattr(res, "changed_fns", set())
+    want = []
+    for h in json.load(open(path)):
+        if res.pid not in h["props"]:
+            continue
+        t = h.get("tier", "quick")
+        if t == "quick" or tier == "thorough" or ((demoted | changed) & set(h.get("covers", []))):
+            want.append(h)
+    if not want:
+        return
+    if not overlay_done:
+        overlay(sc)
+    for h in want:
+        env_count = {"VERIF_SEARCH_COUNT": "1000000" if tier == "thorough" else "10000", "VERIF_SEED": str(res.seed)}
+        os.environ.update(env_count)
+        t0 = time.time()
+        nr = native_replay(sc, h["test"], "", res.log)
+        oid = "search:" + h["name"]
+        o = {"id": oid, "engine": "native-search", "text": h.get("contract", ""), "where": "kani/searches.json", "covers": h.get("covers", []), "bound": h.get("bound", ""),
+             "search_s": round(time.time() - t0, 1)}
+        fails = [l for l in nr["lines"] if l.startswith("REPLAY-FAIL")]
+        stats = [l for l in nr["lines"] if l.startswith("REPLAY-STATS")]
+        if fails:
+            o["status"] = "failed"
+            o["verifier_output"] = "\n".join(nr["lines"])
+            m = re.search(r"input=([0-9a-f]+)", fails[0])
+            o["replay"] = {"kind": "native", "test": h["test"], "input_hex": m.group(1) if m else "", "found_input": True, "lines": nr["lines"], "cmd": nr["cmd"]}
+        elif stats:
+            o["status"] = "discharged" if h.get("exhaustive") else "bounded"
+            o["stats"] = stats[0]
+        else:
+            o["status"] = "undecided"
+            res.undecided.append("native search %s did not run to completion: %s" % (h["name"], nr["tail"][-300:]))
+        res.obligations.append(o)
+    res.functions.setdefault("native_search", [])
+    res.functions["native_search"] += [h["name"] for h in want]
 
 
 def warm(sc, log):
